@@ -119,6 +119,10 @@ class Pairing:
         if any(k == '?' for _, _, k, _ in vp):
             raise Unsupported('callee %s has a parameter the relational stub cannot carry' % name)
         sig = bx2c.Printer(T, bx2c.Opts()).signature(f)
+        if key in PURE_KEYS and f.ret != 'void' and all(k_ == 'v' for _, _, k_, _ in vp):
+            a_ = ['(double)%s' % nm for (_, nm, kind, ct) in vp]
+            a_ += ['0.0'] * (NA - len(a_))
+            return sig + '\n{\n  return (%s)__CPROVER_uninterpreted_out(%d, 99, %s);\n}' % (f.ret, cid, ', '.join(a_[:NA])), (cid, [(kind, ct) for (_, nm, kind, ct) in vp])
         L = [sig, '{', '  int k = tr_x_n; __CPROVER_assert(k < %d, "trace capacity"); tr_x_id[k] = %d;' % (NC, cid)]
         args = []
         j = 0
@@ -168,6 +172,10 @@ class Pairing:
         rt = 'void'
         if u.kind == 'function':
             rt = 'int' if (u.rettype == 'integer' or (u.rettype is None and uname[0] in 'ijklmn')) else 'double'
+        if key in PURE_KEYS and rt != 'void' and all(k_ == 'v' for k_, _ in shape):
+            a_ = ['(double)%s' % a for a in u.args]
+            a_ += ['0.0'] * (NA - len(a_))
+            return '%s ref_%s(%s)\n{\n  return (%s)__CPROVER_uninterpreted_out(%d, 99, %s);\n}' % (rt, uname, ', '.join(ps) if ps else 'void', rt, cid, ', '.join(a_[:NA])), (cid, shape)
         L = ['%s ref_%s(%s)' % (rt, uname, ', '.join(ps) if ps else 'void'), '{',
              '  int k = tr_r_n; __CPROVER_assert(k < %d, "trace capacity"); tr_r_id[k] = %d;' % (NC, cid)]
         args = []
@@ -241,6 +249,10 @@ def ctype_of_local(T, t):
 INLINE_PURE = ('decay0_emass', 'electron_mass_MeV', 'particle_mass_MeV')
 
 ADMISSIBLE_SWAP = ('decay0_pair',)
+# value functions without deviates or emissions on either side (checked: their own pairs have empty call traces apart from
+# other pure functions): a call is the uninterpreted result of its arguments and is not a trace event, so that an extra
+# or repeated evaluation (decay0_fe12_mod4 evaluates fermi(Zd,e1) twice) is not a difference
+PURE_KEYS = ('fermi',)
 # callees whose out-parameter tdlev equals tclev when thlev <= 0 (the leaf and the four one-line wrappers around it)
 REFINE_TDLEV = ('particle', 'gamma', 'electron', 'positron', 'alpha')
 
